@@ -799,7 +799,7 @@ fn shrink(cs: &Case, sig: &Value, limit: f64) -> (Case, u32) {
     loop {
         let mut changed = false;
         let mut i = 0;
-        while i < best.rules.len() && tries < 600 {
+        while i < best.rules.len() && tries < 300 {
             let mut c2 = best.clone();
             c2.rules.remove(i);
             if still(&c2, &mut tries) {
@@ -810,7 +810,7 @@ fn shrink(cs: &Case, sig: &Value, limit: f64) -> (Case, u32) {
             }
         }
         let mut i = 0;
-        while i < best.facts.len() && tries < 600 {
+        while i < best.facts.len() && tries < 300 {
             let mut c2 = best.clone();
             c2.facts.remove(i);
             if still(&c2, &mut tries) {
@@ -822,7 +822,7 @@ fn shrink(cs: &Case, sig: &Value, limit: f64) -> (Case, u32) {
         }
         for ri in 0..best.rules.len() {
             let mut pi = 0;
-            while best.rules[ri].prem.len() > 1 && pi < best.rules[ri].prem.len() && tries < 600 {
+            while best.rules[ri].prem.len() > 1 && pi < best.rules[ri].prem.len() && tries < 300 {
                 let mut c2 = best.clone();
                 c2.rules[ri].prem.remove(pi);
                 if rule_safe_lex(&c2.rules[ri]) && still(&c2, &mut tries) {
@@ -833,7 +833,7 @@ fn shrink(cs: &Case, sig: &Value, limit: f64) -> (Case, u32) {
                 }
             }
             let mut ci = 0;
-            while best.rules[ri].concl.len() > 1 && ci < best.rules[ri].concl.len() && tries < 600 {
+            while best.rules[ri].concl.len() > 1 && ci < best.rules[ri].concl.len() && tries < 300 {
                 let mut c2 = best.clone();
                 c2.rules[ri].concl.remove(ci);
                 if still(&c2, &mut tries) {
@@ -844,7 +844,7 @@ fn shrink(cs: &Case, sig: &Value, limit: f64) -> (Case, u32) {
                 }
             }
             let mut fi = 0;
-            while fi < best.rules[ri].filters.len() && tries < 600 {
+            while fi < best.rules[ri].filters.len() && tries < 300 {
                 let mut c2 = best.clone();
                 c2.rules[ri].filters.remove(fi);
                 if still(&c2, &mut tries) {
@@ -857,7 +857,7 @@ fn shrink(cs: &Case, sig: &Value, limit: f64) -> (Case, u32) {
         }
         // goal: give a clashing variable a plain name, or bind a variable to a constant
         for (vi, x) in goal_vars(&best.goal).iter().enumerate() {
-            if tries >= 600 {
+            if tries >= 300 {
                 break;
             }
             let mut cands: Vec<PT> = vec![];
@@ -875,12 +875,12 @@ fn shrink(cs: &Case, sig: &Value, limit: f64) -> (Case, u32) {
                     changed = true;
                     break;
                 }
-                if tries >= 600 {
+                if tries >= 300 {
                     break;
                 }
             }
         }
-        if !changed || tries >= 600 {
+        if !changed || tries >= 300 {
             break;
         }
     }
